@@ -1986,6 +1986,7 @@ package goatlang
 //@   nopanic
 //@   ensures#fresh result == old(len(l.data)) && len(l.data) == old(len(l.data)) + 1 && haskey(l.keyToIndex, key) && l.keyToIndex[key] == result
 //@   ensures#parked old(haskey(l.keyToIndex, key)) ==> haskey(l.keyToIndex, "~"+key) && l.keyToIndex["~"+key] == old(l.keyToIndex[key])
+//@   ensures#wf l.keyToIndex == old(l.keyToIndex) && len(l.indexToKey) == len(l.data) && l.cap >= len(l.data)
 
 //@ func (*lookup).Drop
 //@   property C08
@@ -2019,6 +2020,7 @@ package goatlang
 //@   ensures#same old(haskey(c.Locals.keyToIndex, key)) && old(c.Locals.keyToIndex[key]) >= c.scope[len(c.scope)-1] ==> result == old(c.Locals.keyToIndex[key]) && len(c.Locals.data) == old(len(c.Locals.data))
 //@   ensures#new !old(haskey(c.Locals.keyToIndex, key)) ==> result == old(len(c.Locals.data)) && len(c.Locals.data) == old(len(c.Locals.data)) + 1
 //@   ensures#bound haskey(c.Locals.keyToIndex, key) && c.Locals.keyToIndex[key] == result
+//@   ensures#wf c.Locals.keyToIndex == old(c.Locals.keyToIndex) && len(c.Locals.indexToKey) == len(c.Locals.data) && c.Locals.cap >= len(c.Locals.data) && len(c.Locals.data) >= old(len(c.Locals.data)) && c.Locals == old(c.Locals)
 //@
 //@ func (*compiler).End
 //@   property C08
@@ -2168,7 +2170,11 @@ package goatlang
 //@   requires wfC(c) && tok != nil && len(tok.Tokens) >= 4 && tokArr(arr(tok.Tokens)) && (forall j int :: 0 <= j && j < len(tok.Tokens) ==> tok.Tokens[j] != nil)
 //@   ensures#wf wfC(c) && keepsC(c)
 //@   ensures#span c.Optimize ==> optimized(cond) && optimized(block) && optimized(post)
+//@   -- the loop has a scope frame of its own and its body another one inside it: a := in the body
+//@   -- shadows the loop variable instead of overwriting it
+//@   ensures#frames @C08 calls("(*compiler).Begin") == 2 && calls("(*compiler).End") == 2
 //@ func (*compiler).compile case "for" loop 0
+//@   invariant#frames calls("(*compiler).Begin") == 2 && calls("(*compiler).End") == 1
 //@   invariant wfC(c) && c.Locals == old(c.Locals) && c.Globals == old(c.Globals) && len(c.scope) == old(len(c.scope)) + 1 && len(c.Locals.data) >= old(len(c.Locals.data)) && len(c.Returns) == old(len(c.Returns)) && c.Optimize == old(c.Optimize)
 //@   invariant forall j int :: 0 <= j && j < old(len(c.scope)) ==> c.scope[j] == old(c.scope[j])
 //@   invariant tokensKept() && (c.Optimize ==> optimized(cond) && optimized(block) && optimized(post))
@@ -2179,7 +2185,11 @@ package goatlang
 //@   requires wfC(c) && tok != nil && len(tok.Tokens) >= 4 && tokArr(arr(tok.Tokens)) && (forall j int :: 0 <= j && j < len(tok.Tokens) ==> tok.Tokens[j] != nil)
 //@   ensures#wf wfC(c) && keepsC(c)
 //@   ensures#span c.Optimize ==> optimized(block)
+//@   -- key and value are declared by the loop (Shadow), not looked up (Index): an outer variable
+//@   -- of the same name keeps its value
+//@   ensures#declares @C08 calls("(*compiler).Shadow") == 2 && calls("(*compiler).Begin") == 1 && calls("(*compiler).End") == 1
 //@ func (*compiler).compile case "range" loop 0
+//@   invariant#declares calls("(*compiler).Shadow") == 2 && calls("(*compiler).Begin") == 1 && calls("(*compiler).End") == 0
 //@   invariant wfC(c) && c.Locals == old(c.Locals) && c.Globals == old(c.Globals) && len(c.scope) == old(len(c.scope)) + 1 && len(c.Locals.data) >= old(len(c.Locals.data)) && len(c.Returns) == old(len(c.Returns)) && c.Optimize == old(c.Optimize)
 //@   invariant forall j int :: 0 <= j && j < old(len(c.scope)) ==> c.scope[j] == old(c.scope[j])
 //@   invariant tokensKept() && (c.Optimize ==> optimized(block))
